@@ -260,3 +260,31 @@ def leading_product_pair(cfg, rng):
             return 0
         return rng.getrandbits(D * nd)
     return (ta << (D * i)) | low(i), (tb << (D * j)) | low(j)
+
+
+def cross_term_pair(cfg, rng):
+    """two-limb operands (a1:a0), (b1:b0) with limbs of L bits whose cross term a0*b1 + a1*b0 is exactly 2^(2L) (closed form a0 = b1 = 2^L - 2e,
+    a1 = 4e, b0 = 2^L - e), or one unit off in one limb: the sum of the two cross products then carries out with an all-zero low part - the case a
+    schoolbook / Karatsuba product assembled from half-width pieces gets wrong if the carry of the cross-term addition is tested with the wrong
+    comparison. L is the digit size or a machine word size (16/32/64) that the width can hold twice; the pair may be moved up by whole limbs."""
+    Ls = [L for L in {cfg.dbits, 16, 32, 64} if 2 * L <= cfg.bits]
+    if not Ls:
+        return value(cfg.U(), rng), value(cfg.U(), rng)
+    L = rng.choice(sorted(Ls))
+    W = 1 << L
+    e = rng.choice((1, 2, 3, rng.randrange(1, 1 << max(1, L - 2)), rng.randrange(1, 1 << max(1, L // 2))))
+    e = max(1, min(e, (W >> 2) - 1))
+    a0 = b1 = W - 2 * e
+    a1, b0 = 4 * e, W - e
+    if rng.random() < 0.25:
+        which = rng.randrange(4)
+        d = rng.choice((-1, 1))
+        a0, a1, b0, b1 = [x + (d if i == which else 0) for i, x in enumerate((a0, a1, b0, b1))]
+    a = ((a1 % W) << L) | (a0 % W)
+    b = ((b1 % W) << L) | (b0 % W)
+    if rng.random() < 0.5:
+        a, b = b, a
+    room = cfg.bits - 2 * L
+    if room >= L and rng.random() < 0.3:
+        a <<= L * rng.randrange(0, room // L + 1)
+    return a & cfg.mask, b & cfg.mask
